@@ -8,6 +8,8 @@ import AiuVerif.Props.C04
 import AiuVerif.Props.C05
 import AiuVerif.Props.C06
 import AiuVerif.Props.C10
+import AiuVerif.Props.C01Bw
+import AiuVerif.Props.C01Stages
 
 namespace AiuVerif.C02
 
@@ -49,5 +51,18 @@ negative-power `OverflowError`, with or without `--skip_events`. -/
 theorem power_total (skip : Bool) (l : List Power.Ctr) (hr : ∀ c ∈ l, Power.InRange c)
     (hs : Power.TimeSorted l) : ∃ outs, Power.computeRank skip l = .ok outs :=
   C10.never_raises skip l hr hs
+
+/-- **The bandwidth stage of the default counter set never raises behind the normalization**: `normalize_phase2`
+renames `args.Bytes` on every slice, so no `X`/`b` event reaches `mp_calc_bw` with a `Bytes` entry, and then `drain()`
+returns for every stream (the one exception of the stage, the division by an empty window, needs `Bytes`). -/
+theorem bandwidth_total (evs : List CalcBw.BEv) (h : ∀ e ∈ evs, e.isXb = true → e.bytes = none) :
+    ∃ out, CalcBw.drain evs = .ok out :=
+  ⟨_, C01.bw_no_bytes_total evs h⟩
+
+/-- **`map_tid_to_range` as the CLI registers it never raises**, however many distinct tids a trace has (its
+`IndexError` needs an empty table; the registered one is not - `Gen/Tables.lean`). -/
+theorem tid_mapping_total (es : List Small.TEv) :
+    ∃ r, Small.mapAll ⟨[], Gen.tidRemap, Gen.tidStep⟩ es = .ok r :=
+  C01.tidmap_total _ es _ C01.registered_tid_ctx_inv C01.registered_tid_ctx_ok.2.2
 
 end AiuVerif.C02
